@@ -3,7 +3,12 @@ from typing import Any, Dict, Generic, Iterator, TypeVar
 
 from statham.schema.constants import NotPassed
 from statham.schema.elements.base import Element, Nothing
-from statham.schema.elements.composition import AllOf
+from statham.schema.elements.composition import (
+    AllOf,
+    _attempt_schema,
+    _most_specific,
+)
+from statham.schema.exceptions import ValidationError
 from statham.schema.property import _Property as Property
 
 
@@ -16,10 +21,18 @@ class _DeclaredAllOf(AllOf):
     """
 
     def construct(self, value: Any, property_: Property):
-        result = super().construct(value, property_)
+        outcomes = [
+            _attempt_schema(element, value, property_)
+            for element in self.elements
+        ]
+        errors = [outcome.error for outcome in outcomes if outcome.error]
+        if errors:
+            raise ValidationError.combine(
+                property_, value, errors, "Does not match all required schemas."
+            )
         if self.elements[0].annotation == "Any":
-            return result
-        return self.elements[0](value, property_)
+            return _most_specific(outcomes).result
+        return outcomes[0].result
 
 
 class Properties:
